@@ -86,12 +86,14 @@ Qed.
 
 (* ---- literal rendering outside the guard ---- *)
 Definition row_null : N -> sv := fun _ => SNull.
-Example literal_empty_tuple_refuted :
+(* repaired by a8e8272: tuple_(x, y).in_([]) rendered literally on SQLite is the bare empty-set subquery
+   (formerly "VALUES SELECT ..": not SQL) and, like the bound form, FALSE even for NULL operands *)
+Example literal_empty_tuple_fixed :
   let e := in_impl (LTuple [1%N; 2%N]) (KTuple 2) OIn in
   consistent e = true /\ wf e [] = true /\ empty_ok sqlite_dialect e [] = true /\
-  literal_guard sqlite_dialect e [] = false /\
+  literal_guard sqlite_dialect e [] = true /\
   (exists x c', process (compile sqlite_dialect PosBare e) [] [] false = Ok (x, c') /\ exec_sem row_null x = EOk TF) /\
-  exists ts, compile_literal_stmt sqlite_dialect PosBare e [] = Ok ts /\ exec_literal row_null ts = EErr.
+  exists ts, compile_literal_stmt sqlite_dialect PosBare e [] = Ok ts /\ exec_literal row_null ts = EOk TF.
 Proof.
   cbv zeta. repeat split; try reflexivity.
   - eexists _, _. split; vm_compute; reflexivity.
@@ -129,13 +131,6 @@ Proof.
   intros H. split; [exact (consistent_negate e H)|]. split; [exact (negate_wf e)|].
   intros x rows. rewrite (negate_op_of e H). exact (expected_negate (ie_op e) x rows).
 Qed.
-
-Theorem literal_empty_tuple_refuted_ex :
-  exists d e row,
-    consistent e = true /\ wf e [] = true /\ empty_ok d e [] = true /\ literal_guard d e [] = false /\
-    (exists x c', process (compile d PosBare e) [] [] false = Ok (x, c') /\ exec_sem row x = EOk TF) /\
-    exists ts, compile_literal_stmt d PosBare e [] = Ok ts /\ exec_literal row ts = EErr.
-Proof. exists sqlite_dialect, (in_impl (LTuple [1%N; 2%N]) (KTuple 2) OIn), row_null. exact literal_empty_tuple_refuted. Qed.
 
 Theorem literal_nulltype_tuple_refuted_ex :
   exists d e vals row,
